@@ -7,7 +7,7 @@ CONSTANTS
   FirstEcn = 1
   MaxAdds = 2
   MaxBuilds = 2
-  Tick = 3000
+  Tick = 3000000
   Even = TRUE
 INVARIANTS TypeOK SizeBound
 PROPERTIES Contiguous Flags NeverLostAgain NewAppear Cursor Independent
